@@ -32,10 +32,11 @@ REF_ATS = [0x49, 0x31, 0x47, 0x1d, 0x64]      # type, abstract_origin, specifica
 
 
 class Die:
-    __slots__ = ('code', 'tag', 'ch', 'attrs', 'children', 'off', 'size', 'parent', 'null', 'pre', 'unit', 'children_term')
+    __slots__ = ('code', 'tag', 'ch', 'attrs', 'children', 'off', 'size', 'parent', 'null', 'pre', 'unit', 'children_term', 'pad')
 
     def __init__(self, code=0, tag=None, ch=False, null=False):
         self.code, self.tag, self.ch, self.null = code, tag, ch, null
+        self.pad = 0              # redundant LEB128 continuation groups in the abbreviation code (0 for almost all entries)
         self.attrs = []       # Attr
         self.children = []
         self.off = self.size = None
@@ -334,6 +335,8 @@ def gen_info(rng, le, nunits=None, versions=(2, 3, 4, 5), exclude=(), unit_types
         def make(code, depth, parent):
             tag, ch, specs = decls[code]
             d = Die(code, tag, ch)
+            if rng.random() < 0.02:
+                d.pad = 1                        # abbreviation code in a non-minimal LEB128 spelling
             d.parent = parent
             d.unit = U
             U.dies.append(d)
@@ -369,6 +372,8 @@ def gen_info(rng, le, nunits=None, versions=(2, 3, 4, 5), exclude=(), unit_types
                     c = rng.choice(leaf if (depth >= max_depth - 1 or nk >= 100) else anyc)
                     d.children.append(make(c, depth + 1, d))
                 z = Die(null=True)
+                if rng.random() < 0.04:
+                    z.pad = rng.choice([1, 2])       # a null entry is an abbreviation code 0 in any LEB128 spelling
                 z.parent = d
                 z.unit = U
                 U.dies.append(z)
@@ -396,9 +401,9 @@ def gen_info(rng, le, nunits=None, versions=(2, 3, 4, 5), exclude=(), unit_types
         for d in U.dies:
             d.off = p
             if d.null:
-                d.size = 1
+                d.size = 1 + d.pad
             else:
-                sz = len(uleb(d.code))
+                sz = len(uleb(d.code, d.pad))
                 for a in d.attrs:
                     a.off = p + sz
                     sz += len(a.data)
@@ -505,9 +510,9 @@ def gen_info(rng, le, nunits=None, versions=(2, 3, 4, 5), exclude=(), unit_types
         buf += hdr
         for d in U.dies:
             if d.null:
-                buf += b'\0'
+                buf += uleb(0, d.pad)
             else:
-                buf += uleb(d.code) + b''.join(a.data for a in d.attrs)
+                buf += uleb(d.code, d.pad) + b''.join(a.data for a in d.attrs)
             assert len(buf) == d.off + d.size, (len(buf), d.off, d.size)
         U.ulen = ulen
         (B.tunits if U.section == '.debug_types' else B.units).append(U)
